@@ -209,6 +209,18 @@ CHECKS["C07"] = dict(
          "cells are excluded (couplings); the spring model's adhesion amplitude (sqrt) is checked for direction, range and reciprocity only.",
     technique="TLA+ spec (ContactRule over ClosestPoint) model-checked by TLC + TLC validation (ContactTrace) of the real narrow phase on every enumerated case")
 
+CHECKS["C13"] = dict(
+    category="model_checking", design_ref="DESIGN.md §C13",
+    text="spec/Mesh/InitProtocol is the accept / retry / give-up protocol of triangulate_surface (TLC: at most ten attempts, a cell is handed over only after a "
+         "validated attempt, the protocol always ends under fairness). Real simulation_initializer runs on generated closed polyhedra (boxes, non-convex voxel solids, "
+         "spheres / ellipsoids, prisms; polygonal and triangulated; consistent and mixed input windings; l_min/size 0.3..0.08; triangulation on and off; positions and "
+         "scales; open and non-manifold inputs as negatives) are observed through hook H8; TLC (InitTrace) validates the protocol of every run, every C01 predicate of "
+         "spec/Mesh and the real edge index on every cell handed to the solver, and requires the driver's verdicts (Poisson samples >= l_min apart, volume / bounding "
+         "box / node-to-surface distance within resolution-dependent tolerances, outward).",
+    note="Randomised geometry: the specification contributes protocol and topological oracle, coverage is a sample of shapes x seeds (exploration-style counts). A "
+         "clean failure satisfies the property; only the vacuity guard notices a change that makes every reconstruction fail. Tolerances are fixed per case.",
+    technique="TLA+ protocol spec (InitProtocol) model-checked by TLC + TLC validation (InitTrace, spec/Mesh predicates) of hooked real initialisation runs")
+
 PENDING = {}   # property id -> reason (filled below for everything not in CHECKS)
 NOT_APPLICABLE = {
  "C10": "memory safety / undefined behaviour has no representation in a TLA+ state (no addresses, lifetimes or indeterminate values); "
